@@ -5,6 +5,7 @@ from .. import pipegen as pg
 from ..case import Case
 from ..runner import Prop
 from .c01 import gen_cases, kinds
+from .. import timegen as tg
 
 
 class C17(Prop):
@@ -33,10 +34,23 @@ class C17(Prop):
                 evs += [e, ["q", "closed"]]
             d.events = evs
             out.append(d)
+        # scheduler-using operators: MultiSubscription / TaskHandle / handler-cell subscriptions
+        n = 5000 if tier == "quick" else 50000
+        for i in range(n):
+            src = tg.sources(rng, ["hot", "hot", "interval", "timer", "iter", "create"])
+            pipe = tg.chain(rng, src, list(tg.TIME_OPS), rng.randint(1, 3), p_sync=0.25)
+            mode = "mixed" if i % 2 else "fifo"
+            base = tg.events(rng, rng.randint(2, 10), hot=(src[0] == "hot"), mode=mode, unsub_p=0.05,
+                             term_p=0.3)
+            evs = []
+            for e in base:
+                evs += [e, ["q", "closed"]]
+            out.append(Case("time", rng.choice(["local", "threads"]), [("pipe", [pipe])], evs,
+                            {"kind": "time-" + mode}))
         return out
 
     def project(self, body):
-        return kinds(body)
+        return kinds(body.split(" ")[0]) if body.startswith("o=") else body
 
     def oracle(self, case, lines, model_lines=None):
         closed = False
@@ -56,14 +70,27 @@ class C17(Prop):
                 if unsubbed and not v:
                     return {"kind": "open-after-unsubscribe", "event": k, "detail": b}
                 closed = closed or v
-            elif b.startswith("o=") and b != "o=" and closed:
+            elif b.startswith("o=") and b.split(" ")[0] != "o=" and closed:
                 return {"kind": "delivery-after-closed", "event": k, "detail": b}
         return None
 
     def nontrivial(self, case, lines):
         vals = set(lines.values())
         return ("closed=0" in vals and "closed=1" in vals) or any(
-            b.startswith("o=") and b != "o=" for b in vals)
+            b.startswith("o=") and b.split(" ")[0] != "o=" for b in vals)
+
+    def shrink_candidates(self, case):
+        return tg.time_shrink(case) if case.suite == "time" else super().shrink_candidates(case)
+
+    def signature(self, case, failure):
+        if case.suite != "time":
+            return super().signature(case, failure)
+        node, hs = case.field("pipe")[0], []
+        while isinstance(node, list) and node:
+            hs.append(node[0])
+            node = node[-1] if isinstance(node[-1], list) and node[0] not in ("iter", "create") else None
+        ops = sorted(set(h for h in hs if h in tg.TIME_OPS))
+        return f"{failure['kind']}|time|{','.join(ops)}"
 
 
 PROP = C17()
